@@ -50,8 +50,8 @@ def impl_objects():
     from translate_tables import all_patterns
     ld = yatiml.load_function().loader('')
     sl = yaml.SafeLoader('')
-    dm = yatiml.dumper.Dumper.__new__(yatiml.dumper.Dumper)
-    yaml.resolver.BaseResolver.__init__(dm)
+    from translate_tables import live_dumper
+    dm = live_dumper()          # a Dumper as dumps_function makes it (its table is per instance)
     pats = all_patterns()
     return ld, sl, dm, pats
 
